@@ -155,9 +155,12 @@ class _StubNt:
 
     def __init__(self):
         self.out = []
+        self.reader = None
 
     def add_outbound_message(self, msg, addr, port, params):
         self.out.append((msg.p_msg.header_info_block.Action, addr, port, msg, params))
+        if self.reader is not None:   # the real code registers own ids in the id memory and fills the send queue
+            self.reader.add_outbound_message(msg, addr, port, params)
 
 
 class _ScriptedQueue:
@@ -180,6 +183,7 @@ class Sim:
         self.wsd = wsdimpl.WSDiscovery('127.0.0.1')
         self.reader = c15._mk_nt(ntmod, self.wsd)   # real NetworkingThread without sockets: _run_q_read is real
         self.stub = _StubNt()
+        self.stub.reader = self.reader
         self.wsd._networking_thread = self.stub
         self.wsd._server_started = True
         self.msg_counter = 0
@@ -298,6 +302,16 @@ class Sim:
             if self.table() != before:
                 problems.append('a repeated MessageID changed the remote service table')
             return 'ok', problems + self.check_table()
+        elif kind == 'prefill':
+            # fill the id memory through the real reader with n foreign, otherwise irrelevant datagrams
+            payload = wsd_types.ResolveType()
+            payload.EndpointReference.Address = 'urn:uuid:nobody'
+            for _ in range(ev[1]):
+                _mid, data = self._mk(payload, False)
+                self.reader._quit_recv_event.clear()
+                self.reader._read_queue = _ScriptedQueue(self.reader, [(PEER, data)])
+                self.reader._run_q_read()
+            return 'ok', self.check_table()
         elif kind == 'publish':
             _, epr = ev
             from sdc11073.xml_types import wsd_types as wt
@@ -442,6 +456,11 @@ def run(ctx):
         jobs += hist.sequences(core, depth)
     else:
         jobs += hist.sequences(evs, depth)
+    # the same with a full id memory: every event followed by a repetition of its datagram
+    maxlen = 200
+    for n in (maxlen - 1, maxlen, maxlen + 5):
+        jobs += [[('prefill', n), ('publish', 'A'), ev, ('repeat',)] for ev in evs if ev[0] not in ('repeat', 'publish', 'clear')]
+        jobs += [[('publish', 'A'), ('prefill', n), ev, ('repeat',), ('repeat',)] for ev in evs if ev[0] in ('probe', 'resolve', 'hello')]
     ctx.note('bounds', {'uris': len(uris), 'probe_uris': len(pick), 'table_alphabet': len(evs), 'table_depth': depth,
                         'table_histories': len(jobs)})
     ctx.pmap(_work, ctx.rotate(jobs))
